@@ -898,8 +898,12 @@ func ensureServiceTxn(tx WriteTxn, idx uint64, node string, preserveIndexes bool
 			service = svc.Proxy.DestinationServiceName
 		}
 		sn := structs.ServiceName{Name: service, EnterpriseMeta: svc.EnterpriseMeta}
-		if err = checkGatewayWildcardsAndUpdate(tx, idx, &sn, svc, structs.GatewayServiceKindService); err != nil {
-			return fmt.Errorf("failed updating gateway mapping: %s", err)
+		// Imported instances do not take part in the local gateway-services table: its key
+		// has no peer name and deleteServiceTxn only cleans it up for local instances.
+		if svc.PeerName == "" {
+			if err = checkGatewayWildcardsAndUpdate(tx, idx, &sn, svc, structs.GatewayServiceKindService); err != nil {
+				return fmt.Errorf("failed updating gateway mapping: %s", err)
+			}
 		}
 
 		if svc.PeerName == "" && sn.Name != "" {
